@@ -413,7 +413,7 @@ Qed.
 
 Lemma step_inv2 w o : clean_op o -> Inv2 w -> Inv2 (step w o).
 Proof.
-  intros Hcl I. destruct o as [p|dt| |n b]; cbn [step].
+  intros Hcl I. destruct o as [ty p|dt| |n b]; cbn [step].
   - rewrite write_unfold.
     destruct (pre_mid (fun _ => True) (fun _ _ _ _ => Logic.I) (fun _ _ _ _ _ => Logic.I) w (Z.of_nat (length p) + 1) I Logic.I) as (I3 & _ & i3 & _).
     apply append_inv2; assumption.
@@ -463,7 +463,7 @@ Proof. intros _ _ _ H. unfold Conserved. rewrite rotateS_all_recs, rotateS_hist.
 
 Lemma step_conserved w o : clean_op o -> Inv2 w -> Conserved w -> Conserved (step w o).
 Proof.
-  intros Hcl I H. destruct o as [p|dt| |n b]; cbn [step]; try exact H.
+  intros Hcl I H. destruct o as [ty p|dt| |n b]; cbn [step]; try exact H.
   - rewrite write_unfold.
     destruct (pre_mid Conserved conserved_state conserved_rot w (Z.of_nat (length p) + 1) I H) as (_ & H3 & _).
     unfold Conserved in *. unfold append, all_recs; cbn [hist gone rot act]. rewrite H3. unfold all_recs.
@@ -484,7 +484,7 @@ Proof.
 Qed.
 Lemma step_count w o : clean_op o -> Inv2 w -> CountOk w -> CountOk (step w o).
 Proof.
-  intros Hcl I H. destruct o as [p|dt| |n b]; cbn [step]; try exact H.
+  intros Hcl I H. destruct o as [ty p|dt| |n b]; cbn [step]; try exact H.
   - rewrite write_unfold.
     destruct (pre_mid CountOk (fun _ _ _ H => H) count_rot w (Z.of_nat (length p) + 1) I H) as (_ & H3 & _). exact H3.
   - cbn in Hcl. rewrite (put_foreign_unfold w n b Hcl). destruct (str_eqb n (active_name c)); exact H.
@@ -517,7 +517,7 @@ Qed.
 
 Lemma step_ps w o : clean_op o -> Inv2 w -> PS w -> PS (step w o).
 Proof.
-  intros Hcl I H. destruct o as [p|dt| |n b]; cbn [step]; try exact H.
+  intros Hcl I H. destruct o as [ty p|dt| |n b]; cbn [step]; try exact H.
   2:{ cbn in Hcl. rewrite (put_foreign_unfold w n b Hcl). destruct (str_eqb n (active_name c)); exact H. }
   rewrite write_unfold. set (r := {| rbytes := _; rid := _; rday := _ |}).
   assert (Hrl : rlen r = Z.of_nat (length p) + 1). { unfold rlen, r; cbn [rbytes]. rewrite app_length. cbn [length]. lia. }
@@ -578,7 +578,7 @@ Definition DS (w : world) : Prop := DaysMid w /\ RecsPos w.
 Lemma step_days w o : clean_op o -> Inv2 w -> DS w -> (inited w = true -> act w <> []) ->
   DS (step w o) /\ (inited (step w o) = true -> act (step w o) <> []).
 Proof.
-  intros Hcl I [D HP] Hop. destruct o as [p|dt| |n b]; cbn [step].
+  intros Hcl I [D HP] Hop. destruct o as [ty p|dt| |n b]; cbn [step].
   2:{ destruct D as [Ha Hr Hc]. split; [split; [|exact HP]|exact Hop]. constructor; cbn; try assumption.
       intros Hi. destruct (Hc Hi) as [H1 H2]. split; [exact H1|]. intros E. specialize (Hop Hi). contradiction. }
   2:{ destruct D as [Ha Hr Hc]. split; [split; [|exact HP]|cbn; discriminate]. constructor; cbn; try assumption. discriminate. }
@@ -657,7 +657,7 @@ Qed.
 Definition HistOk (w : world) : Prop := Forall term (hist w) /\ ids_from 0 (hist w) = true.
 Lemma step_hist w o : clean_op o -> Inv2 w -> HistOk w -> HistOk (step w o).
 Proof.
-  intros Hcl I H. destruct o as [p|dt| |n b]; cbn [step]; try exact H.
+  intros Hcl I H. destruct o as [ty p|dt| |n b]; cbn [step]; try exact H.
   - rewrite write_unfold.
     destruct (pre_mid (fun w' => hist w' = hist w) (fun _ _ _ H => H)
                 (fun w' _ _ _ H => eq_trans (rotateS_hist w') H) w (Z.of_nat (length p) + 1) I eq_refl) as (_ & H3 & _).
@@ -680,7 +680,7 @@ Lemma size_foreign w a : foreign (check_size w a) = foreign w.
 Proof. rewrite size_unfold. destruct (_ && _); [apply rotate_foreign|reflexivity]. Qed.
 Lemma sink_ops_leave_foreign w o : (forall n b, o <> PutForeign n b) -> foreign (step w o) = foreign w.
 Proof.
-  intros Ho. destruct o as [p|dt| |n b]; cbn [step]; try reflexivity.
+  intros Ho. destruct o as [ty p|dt| |n b]; cbn [step]; try reflexivity.
   - rewrite write_unfold. unfold append, before_append; cbn [foreign].
     rewrite size_foreign, daily_foreign, init_foreign. reflexivity.
   - exfalso. eapply Ho. reflexivity.
@@ -1252,8 +1252,8 @@ Definition ForeignOk (w : world) : Prop :=
   Forall (fun x => parse_name c (xname x) = None /\ xname x <> active_name c) (foreign w).
 Lemma step_foreign_ok w o : clean_op c o -> ForeignOk w -> ForeignOk (step std_shape c w o).
 Proof.
-  intros Hcl H. destruct o as [p|dt| |n b].
-  - unfold ForeignOk. rewrite (sink_ops_leave_foreign c w (Write p)); [exact H|intros n b; discriminate].
+  intros Hcl H. destruct o as [ty p|dt| |n b].
+  - unfold ForeignOk. rewrite (sink_ops_leave_foreign c w (Write ty p)); [exact H|intros n b; discriminate].
   - exact H.
   - exact H.
   - cbn in Hcl. cbn [step]. rewrite (put_foreign_unfold c w n b Hcl).
@@ -1316,3 +1316,17 @@ Proof.
 Qed.
 (* in particular a rename target (the newest rotated name) is not the name of any other file, present or removed *)
 End FinalNames.
+
+(* ---------- the message type is not a parameter of any decision ---------- *)
+Lemma step_retype sh c f w o : step sh c w (retype f o) = step sh c w o.
+Proof. destruct o; reflexivity. Qed.
+Theorem T_retype_run sh c f t0 ops : run sh c t0 (map (retype f) ops) = run sh c t0 ops.
+Proof.
+  unfold run. generalize (w0 c t0). induction ops as [|o ops IH]; intros w; cbn [map fold_left]; [reflexivity|].
+  rewrite step_retype. apply IH.
+Qed.
+Lemma clean_retype c f ops : clean c ops -> clean c (map (retype f) ops).
+Proof.
+  unfold clean. intros H. rewrite Forall_forall in *. intros o Ho. apply in_map_iff in Ho as (o' & <- & Ho').
+  specialize (H o' Ho'). destruct o'; exact H.
+Qed.
